@@ -102,6 +102,11 @@ func genJNode(t *rapid.T, depth int) jnode {
 			if tv.Sec < vh.ZeroUnix+86400*366 { // RFC 3339 needs a 4-digit positive year
 				tv.Sec = 86400 * 365
 			}
+			if rapid.IntRange(0, 9).Draw(t, "faryear") == 0 {
+				// years RFC 3339 cannot express (any int64 second count can arrive in decoded data): the output must
+				// still be one JSON string; its content is not judged
+				tv.Sec = []int64{253402300800, 253402300799 + 86400*400, 1 << 40, vh.ZeroUnix - 86400*400, -(1 << 40)}[rapid.IntRange(0, 4).Draw(t, "far")]
+			}
 			return jnode{K: "time", T: tv}
 		default:
 			return jnode{K: "raw", Raw: rawNumbers[rapid.IntRange(0, len(rawNumbers)-1).Draw(t, "raw")]}
@@ -276,6 +281,9 @@ func matchTokens(dec *json.Decoder, n *jnode, path string) *vh.Failure {
 		s, ok := tok.(string)
 		if !ok {
 			return bad("Time")
+		}
+		if y := n.T.Time().UTC().Year(); y > 9999 || y < 1 {
+			break // not expressible in RFC 3339: a string token is all that is required
 		}
 		got, err := time.Parse(time.RFC3339Nano, s)
 		if err != nil || !got.Equal(n.T.Time()) {
